@@ -1,7 +1,7 @@
 //! The range table and, per builder, the typed glue that exercises `check_ref`, `check` and the
 //! training entry points.
 
-use crate::core::{as_count, dbg, fit_core, guard_core, ignore, CountDist, CountRng, Ctx, Glue, Probe};
+use crate::core::{apply, as_count, dbg, fit_core, guard_core, ignore, CountDist, CountRng, Ctx, Glue, Probe};
 use crate::data;
 use crate::spec::{opt, p, p32, Dom::*, Expect};
 use crate::{no_cross, no_narrow, Builder};
@@ -176,7 +176,16 @@ mod clustering {
                 }
                 _ => KMeansInit::KMeansPara,
             };
-            b.n_runs(cnt(v, 1)).tolerance(at(v, 2)).max_n_iterations(cnt(v, 3) as u64).init_method(init)
+            apply(
+                b,
+                v,
+                &[
+                    &|b: P, v| b.n_runs(cnt(v, 1)),
+                    &|b: P, v| b.tolerance(at(v, 2)),
+                    &|b: P, v| b.max_n_iterations(cnt(v, 3) as u64),
+                    &|b: P, _| b.init_method(init.clone()),
+                ],
+            )
         };
         let g = Glue {
             cx, stale: None, first_set: None,
@@ -227,7 +236,17 @@ mod clustering {
         let dp = Probe::new();
         let x = data::blobs(cx.seed, 12, 2);
         let base = |v: &[f64]| -> P { Dbscan::params_with(cnt(v, 0), CountDist(dp.clone()), nn(0)) };
-        let set = |b: P, v: &[f64]| b.tolerance(at(v, 1)).nn_algo(nn(cnt(v, 2)));
+        let set = |b: P, v: &[f64]| {
+            apply(
+                b,
+                v,
+                &[
+                    &|b: P, _| b.dist_fn(CountDist(dp.clone())),
+                    &|b: P, v| b.tolerance(at(v, 1)),
+                    &|b: P, v| b.nn_algo(nn(cnt(v, 2))),
+                ],
+            )
+        };
         let g = Glue { cx, stale: None, first_set: None, base: &base, set: &set, clone: Some(&|b| b.clone()), touch: &|b| ignore(|| b.transform(&x)) };
         let Some((v, hb)) =
             guard_core(obs, &g, Some(&eq), Some(&eq), Some(&|c| vec![c.minimum_points() as f64, c.tolerance()]))
@@ -242,7 +261,17 @@ mod clustering {
         let dp = Probe::new();
         let x = data::blobs(cx.seed, 12, 2);
         let base = |v: &[f64]| -> P { Optics::params_with(cnt(v, 0), CountDist(dp.clone()), nn(0)) };
-        let set = |b: P, v: &[f64]| b.tolerance(at(v, 1)).nn_algo(nn(cnt(v, 2)));
+        let set = |b: P, v: &[f64]| {
+            apply(
+                b,
+                v,
+                &[
+                    &|b: P, _| b.dist_fn(CountDist(dp.clone())),
+                    &|b: P, v| b.tolerance(at(v, 1)),
+                    &|b: P, v| b.nn_algo(nn(cnt(v, 2))),
+                ],
+            )
+        };
         let g = Glue { cx, stale: None, first_set: None, base: &base, set: &set, clone: Some(&|b| b.clone()), touch: &|b| ignore(|| b.transform(x.view())) };
         let Some((v, hb)) =
             guard_core(obs, &g, Some(&eq), Some(&eq), Some(&|c| vec![c.minimum_points() as f64, c.tolerance()]))
@@ -256,14 +285,23 @@ mod clustering {
         type P = GmmParams<f64, CountRng>;
         let rp = Probe::new();
         let ds = DatasetBase::from(data::blobs(cx.seed, 16, 2));
-        let base = |v: &[f64]| -> P { GaussianMixtureModel::params_with_rng(cnt(v, 0), CountRng::new(cx.seed, &rp)) };
+        // constructed with another generator; `with_rng` (first in the canonical order) installs the real one
+        let base = |v: &[f64]| -> P { GaussianMixtureModel::params_with_rng(cnt(v, 0), CountRng::new(cx.seed ^ 0x5eed, &rp)) };
         let set = |b: P, v: &[f64]| {
-            b.tolerance(at(v, 1))
-                .reg_covariance(at(v, 2))
-                .n_runs(cnt(v, 3) as u64)
-                .max_n_iterations(cnt(v, 4) as u64)
-                .init_method(if cnt(v, 5) == 0 { GmmInitMethod::KMeans } else { GmmInitMethod::Random })
-                .covariance_type(linfa_clustering::GmmCovarType::Full)
+            apply(
+                b,
+                v,
+                &[
+                    // builder-transforming: replaces the generator, must carry every other setting over
+                    &|b: P, _| b.with_rng(CountRng::new(cx.seed, &rp)),
+                    &|b: P, v| b.tolerance(at(v, 1)),
+                    &|b: P, v| b.reg_covariance(at(v, 2)),
+                    &|b: P, v| b.n_runs(cnt(v, 3) as u64),
+                    &|b: P, v| b.max_n_iterations(cnt(v, 4) as u64),
+                    &|b: P, v| b.init_method(if cnt(v, 5) == 0 { GmmInitMethod::KMeans } else { GmmInitMethod::Random }),
+                    &|b: P, _| b.covariance_type(linfa_clustering::GmmCovarType::Full),
+                ],
+            )
         };
         let g = Glue {
             cx, stale: None, first_set: None,
@@ -355,7 +393,13 @@ mod linear {
 
     run_fit!(enet, ElasticNetError,
         base: |_: &[f64]| ElasticNetParams::<f64>::new(),
-        set: |b: ElasticNetParams<f64>, v: &[f64]| b.penalty(at(v, 0)).l1_ratio(at(v, 1)).tolerance(at(v, 2)).max_iterations(cnt(v, 3) as u32).with_intercept(cnt(v, 4) == 0),
+        set: |b: ElasticNetParams<f64>, v: &[f64]| apply(b, v, &[
+            &|b: ElasticNetParams<f64>, v| b.penalty(at(v, 0)),
+            &|b: ElasticNetParams<f64>, v| b.l1_ratio(at(v, 1)),
+            &|b: ElasticNetParams<f64>, v| b.tolerance(at(v, 2)),
+            &|b: ElasticNetParams<f64>, v| b.max_iterations(cnt(v, 3) as u32),
+            &|b: ElasticNetParams<f64>, v| b.with_intercept(cnt(v, 4) == 0),
+        ]),
         read: Some(&|c| vec![c.penalty(), c.l1_ratio(), c.tolerance(), c.max_iterations() as f64]),
         data: |cx: &Ctx| {
             let x = data::blobs(cx.seed, 10, 2);
@@ -366,7 +410,13 @@ mod linear {
 
     run_fit!(mt_enet, ElasticNetError,
         base: |_: &[f64]| MultiTaskElasticNetParams::<f64>::new(),
-        set: |b: MultiTaskElasticNetParams<f64>, v: &[f64]| b.penalty(at(v, 0)).l1_ratio(at(v, 1)).tolerance(at(v, 2)).max_iterations(cnt(v, 3) as u32).with_intercept(cnt(v, 4) == 0),
+        set: |b: MultiTaskElasticNetParams<f64>, v: &[f64]| apply(b, v, &[
+            &|b: MultiTaskElasticNetParams<f64>, v| b.penalty(at(v, 0)),
+            &|b: MultiTaskElasticNetParams<f64>, v| b.l1_ratio(at(v, 1)),
+            &|b: MultiTaskElasticNetParams<f64>, v| b.tolerance(at(v, 2)),
+            &|b: MultiTaskElasticNetParams<f64>, v| b.max_iterations(cnt(v, 3) as u32),
+            &|b: MultiTaskElasticNetParams<f64>, v| b.with_intercept(cnt(v, 4) == 0),
+        ]),
         read: Some(&|c| vec![c.penalty(), c.l1_ratio(), c.tolerance(), c.max_iterations() as f64]),
         data: |cx: &Ctx| {
             let x = data::blobs(cx.seed, 10, 2);
@@ -379,14 +429,22 @@ mod linear {
 
     run_fit!(logistic, linfa_logistic::error::Error,
         base: |_: &[f64]| LogisticRegression::<f64>::new().max_iterations(30),
-        set: |b: LogisticRegression<f64>, v: &[f64]| b.alpha(at(v, 0)).gradient_tolerance(at(v, 1)).with_intercept(cnt(v, 2) == 0),
+        set: |b: LogisticRegression<f64>, v: &[f64]| apply(b, v, &[
+            &|b: LogisticRegression<f64>, v| b.alpha(at(v, 0)),
+            &|b: LogisticRegression<f64>, v| b.gradient_tolerance(at(v, 1)),
+            &|b: LogisticRegression<f64>, v| b.with_intercept(cnt(v, 2) == 0),
+        ]),
         read: None,
         data: |cx: &Ctx| DatasetBase::new(data::blobs(cx.seed, 10, 2), data::class_targets(10, 2)),
         same: eqd);
 
     run_fit!(multi_logistic, linfa_logistic::error::Error,
         base: |_: &[f64]| MultiLogisticRegression::<f64>::new().max_iterations(30),
-        set: |b: MultiLogisticRegression<f64>, v: &[f64]| b.alpha(at(v, 0)).gradient_tolerance(at(v, 1)).with_intercept(cnt(v, 2) == 0),
+        set: |b: MultiLogisticRegression<f64>, v: &[f64]| apply(b, v, &[
+            &|b: MultiLogisticRegression<f64>, v| b.alpha(at(v, 0)),
+            &|b: MultiLogisticRegression<f64>, v| b.gradient_tolerance(at(v, 1)),
+            &|b: MultiLogisticRegression<f64>, v| b.with_intercept(cnt(v, 2) == 0),
+        ]),
         read: None,
         data: |cx: &Ctx| DatasetBase::new(data::blobs(cx.seed, 12, 2), data::class_targets(12, 3)),
         same: eqd);
@@ -394,13 +452,18 @@ mod linear {
     run_fit!(tweedie, LinearError<f64>,
         base: |_: &[f64]| TweedieRegressor::<f64>::params().max_iter(30),
         set: |b: TweedieRegressorParams<f64>, v: &[f64]| {
-            let b = b.alpha(at(v, 0)).power(at(v, 1)).fit_intercept(cnt(v, 3) == 0);
-            match cnt(v, 2) {
-                0 => b,
-                1 => b.link(linfa_linear::Link::Log),
-                2 => b.link(linfa_linear::Link::Identity),
-                _ => b.link(linfa_linear::Link::Logit),
-            }
+            type P = TweedieRegressorParams<f64>;
+            apply(b, v, &[
+                &|b: P, v| b.alpha(at(v, 0)),
+                &|b: P, v| b.power(at(v, 1)),
+                &|b: P, v| b.fit_intercept(cnt(v, 3) == 0),
+                &|b: P, v| match cnt(v, 2) {
+                    0 => b,
+                    1 => b.link(linfa_linear::Link::Log),
+                    2 => b.link(linfa_linear::Link::Identity),
+                    _ => b.link(linfa_linear::Link::Logit),
+                },
+            ])
         },
         read: Some(&|c| vec![c.alpha(), c.power()]),
         data: |cx: &Ctx| {
@@ -469,23 +532,42 @@ mod svm {
         ]
     }
 
-    /// solver eps and the nested Platt parameters, stored from index `i` on
+    /// variant setter `head` plus solver eps, the nested Platt parameters, kernel and shrinking (stored from index `i` on),
+    /// every call one step of the (permutable) chain
+    fn chain<T>(
+        b: SvmParams<f64, T>,
+        v: &[f64],
+        i: usize,
+        head: &dyn Fn(SvmParams<f64, T>, &[f64]) -> SvmParams<f64, T>,
+    ) -> SvmParams<f64, T> {
+        apply(
+            b,
+            v,
+            &[
+                head,
+                &|b: SvmParams<f64, T>, v| b.eps(at(v, i)),
+                &|b: SvmParams<f64, T>, v| {
+                    b.with_platt_params(Platt::params().maxiter(cnt(v, i + 1)).minstep(at(v, i + 2)).sigma(at(v, i + 3)))
+                },
+                &|b: SvmParams<f64, T>, v| b.shrinking(cnt(v, i + 5) == 1),
+                &|b: SvmParams<f64, T>, v| match cnt(v, i + 4) {
+                    0 => b.linear_kernel(),
+                    1 => b.gaussian_kernel(2.0),
+                    _ => b.with_kernel_params(
+                        linfa_kernel::Kernel::params().method(linfa_kernel::KernelMethod::Polynomial(1.0, 2.0)),
+                    ),
+                },
+            ],
+        )
+    }
     fn tail<T>(b: SvmParams<f64, T>, v: &[f64], i: usize) -> SvmParams<f64, T> {
-        let b = b
-            .eps(at(v, i))
-            .with_platt_params(Platt::params().maxiter(cnt(v, i + 1)).minstep(at(v, i + 2)).sigma(at(v, i + 3)))
-            .shrinking(cnt(v, i + 5) == 1);
-        match cnt(v, i + 4) {
-            0 => b.linear_kernel(),
-            1 => b.gaussian_kernel(2.0),
-            _ => b.polynomial_kernel(1.0, 2.0),
-        }
+        chain(b, v, i, &|b, _| b)
     }
     fn set_c<T>(b: SvmParams<f64, T>, v: &[f64]) -> SvmParams<f64, T> {
-        tail(b.pos_neg_weights(at(v, 0), at(v, 1)), v, 2)
+        chain(b, v, 2, &|b, v| b.pos_neg_weights(at(v, 0), at(v, 1)))
     }
     fn set_nu<T>(b: SvmParams<f64, T>, v: &[f64]) -> SvmParams<f64, T> {
-        tail(b.nu_weight(at(v, 0)), v, 1)
+        chain(b, v, 1, &|b, v| b.nu_weight(at(v, 0)))
     }
     // the setters document that C weights and Nu displace each other; NaN (= mismatch) when the other one is still set
     fn read_c<T>(c: &linfa_svm::SvmValidParams<f64, T>) -> Vec<f64> {
@@ -550,7 +632,7 @@ mod svm {
     run_svm!(
         svr_c,
         f64,
-        |b: SvmParams<f64, f64>, v: &[f64]| tail(b.c_svr(at(v, 0), Some(at(v, 1))), v, 2),
+        |b: SvmParams<f64, f64>, v: &[f64]| chain(b, v, 2, &|b, v| b.c_svr(at(v, 0), Some(at(v, 1)))),
         |b: SvmParams<f64, f64>, v: &[f64]| tail(b.nu_svr(0.4, Some(2.0)), v, 2),
         read_c,
         reg_data
@@ -558,7 +640,7 @@ mod svm {
     run_svm!(
         svr_nu,
         f64,
-        |b: SvmParams<f64, f64>, v: &[f64]| tail(b.nu_svr(at(v, 0), None), v, 1),
+        |b: SvmParams<f64, f64>, v: &[f64]| chain(b, v, 1, &|b, v| b.nu_svr(at(v, 0), None)),
         |b: SvmParams<f64, f64>, v: &[f64]| tail(b.c_svr(7.0, Some(0.3)), v, 1),
         read_nu,
         reg_data
@@ -635,14 +717,17 @@ mod misc {
 
     run_fit!(tree, linfa::Error,
         base: |_: &[f64]| DecisionTree::<f64, usize>::params(),
-        set: |b: DecisionTreeParams<f64, usize>, v: &[f64]| b
-            .min_impurity_decrease(at(v, 0))
-            .split_quality(if cnt(v, 1) == 0 { linfa_trees::SplitQuality::Gini } else { linfa_trees::SplitQuality::Entropy })
-            .max_depth(match cnt(v, 2) {
+        set: |b: DecisionTreeParams<f64, usize>, v: &[f64]| apply(b, v, &[
+            &|b: DecisionTreeParams<f64, usize>, v| b.min_impurity_decrease(at(v, 0)),
+            &|b: DecisionTreeParams<f64, usize>, v| {
+                b.split_quality(if cnt(v, 1) == 0 { linfa_trees::SplitQuality::Gini } else { linfa_trees::SplitQuality::Entropy })
+            },
+            &|b: DecisionTreeParams<f64, usize>, v| b.max_depth(match cnt(v, 2) {
                 0 => None,
                 1 => Some(1),
                 _ => Some(3),
             }),
+        ]),
         read: Some(&|c| vec![c.min_impurity_decrease()]),
         data: labelled,
         same: eqd);
@@ -710,7 +795,19 @@ mod misc {
         let rp = Probe::new();
         let ds = DatasetBase::new(data::blobs(cx.seed, 10, 2), data::bool_targets(10));
         let base = |_: &[f64]| -> P { Ftrl::<f64>::params_with_rng(CountRng::new(cx.seed, &rp)) };
-        let set = |b: P, v: &[f64]| b.alpha(at(v, 0)).beta(at(v, 1)).l1_ratio(at(v, 2)).l2_ratio(at(v, 3));
+        let set = |b: P, v: &[f64]| {
+            apply(
+                b,
+                v,
+                &[
+                    &|b: P, _| b.rng(CountRng::new(cx.seed, &rp)),
+                    &|b: P, v| b.alpha(at(v, 0)),
+                    &|b: P, v| b.beta(at(v, 1)),
+                    &|b: P, v| b.l1_ratio(at(v, 2)),
+                    &|b: P, v| b.l2_ratio(at(v, 3)),
+                ],
+            )
+        };
         let g = Glue {
             cx, stale: None, first_set: None,
             base: &base,
@@ -771,7 +868,9 @@ mod misc {
         y[11] = false;
         let ds = DatasetBase::new(x, y);
         let base = |_: &[f64]| -> P { Platt::<f64, Scorer>::params() };
-        let set = |b: P, v: &[f64]| b.maxiter(cnt(v, 0)).minstep(at(v, 1)).sigma(at(v, 2));
+        let set = |b: P, v: &[f64]| {
+            apply(b, v, &[&|b: P, v| b.maxiter(cnt(v, 0)), &|b: P, v| b.minstep(at(v, 1)), &|b: P, v| b.sigma(at(v, 2))])
+        };
         let g = Glue {
             cx, stale: None, first_set: None,
             base: &base,
@@ -840,10 +939,12 @@ mod misc {
         }
     }
     fn hier_num(cx: &Ctx, obs: &mut Obs) {
-        hier(cx, obs, &|b, v| b.num_clusters(cnt(v, 0)).with_method(method(cnt(v, 1))));
+        type P = HierarchicalCluster<f64>;
+        hier(cx, obs, &|b, v| apply(b, v, &[&|b: P, v| b.num_clusters(cnt(v, 0)), &|b: P, v| b.with_method(method(cnt(v, 1)))]));
     }
     fn hier_dist(cx: &Ctx, obs: &mut Obs) {
-        hier(cx, obs, &|b, v| b.max_distance(at(v, 0)).with_method(method(cnt(v, 1))));
+        type P = HierarchicalCluster<f64>;
+        hier(cx, obs, &|b, v| apply(b, v, &[&|b: P, v| b.max_distance(at(v, 0)), &|b: P, v| b.with_method(method(cnt(v, 1)))]));
     }
 }
 
@@ -917,7 +1018,9 @@ mod reduction {
         let rp = Probe::new();
         let x = data::blobs(cx.seed, 16, 3);
         let base = |_: &[f64]| -> P { TSneParams::<f64, _>::embedding_size_with_rng(2, CountRng::new(cx.seed, &rp)).max_iter(4) };
-        let set = |b: P, v: &[f64]| b.perplexity(at(v, 0)).approx_threshold(at(v, 1));
+        let set = |b: P, v: &[f64]| {
+            apply(b, v, &[&|b: P, v| b.perplexity(at(v, 0)), &|b: P, v| b.approx_threshold(at(v, 1)), &|b: P, _| b.max_iter(4)])
+        };
         let g = Glue { cx, stale: None, first_set: None, base: &base, set: &set, clone: Some(&|b| b.clone()), touch: &|b| ignore(|| b.transform(x.clone())) };
         let Some((v, hb)) =
             guard_core(obs, &g, Some(&eq), Some(&eq), Some(&|c| vec![c.perplexity(), c.approx_threshold()]))
@@ -948,10 +1051,17 @@ mod reduction {
                 let ds = DatasetBase::new(x, y);
                 let base = |_: &[f64]| $ty::<f64>::params(2);
                 let set = |b: paste_ty!($ty), v: &[f64]| {
-                    b.tolerance(at(v, 0))
-                        .max_iterations(cnt(v, 1))
-                        .algorithm(if cnt(v, 2) == 0 { linfa_pls::Algorithm::Nipals } else { linfa_pls::Algorithm::Svd })
-                        .scale(cnt(v, 3) == 0)
+                    type P = paste_ty!($ty);
+                    apply(
+                        b,
+                        v,
+                        &[
+                            &|b: P, v| b.tolerance(at(v, 0)),
+                            &|b: P, v| b.max_iterations(cnt(v, 1)),
+                            &|b: P, v| b.algorithm(if cnt(v, 2) == 0 { linfa_pls::Algorithm::Nipals } else { linfa_pls::Algorithm::Svd }),
+                            &|b: P, v| b.scale(cnt(v, 3) == 0),
+                        ],
+                    )
                 };
                 // no Clone on these builders: the "clone" variant degenerates to the same builder
                 let g = Glue { cx, stale: None, first_set: None, base: &base, set: &set, clone: None, touch: &|b| ignore(|| -> Result<_, PlsError> { b.fit(&ds) }) };
@@ -973,12 +1083,16 @@ mod reduction {
 
     run_fit!(ica, linfa_ica::error::FastIcaError,
         base: |_: &[f64]| FastIca::<f64>::params().max_iter(30),
-        set: |b: FastIcaParams<f64>, v: &[f64]| b.tol(at(v, 0)).random_state(7).gfunc(match cnt(v, 1) {
-            0 => linfa_ica::fast_ica::GFunc::Logcosh(1.0),
-            1 => linfa_ica::fast_ica::GFunc::Exp,
-            2 => linfa_ica::fast_ica::GFunc::Cube,
-            _ => linfa_ica::fast_ica::GFunc::Logcosh(1.5),
-        }),
+        set: |b: FastIcaParams<f64>, v: &[f64]| apply(b, v, &[
+            &|b: FastIcaParams<f64>, v| b.tol(at(v, 0)),
+            &|b: FastIcaParams<f64>, _| b.random_state(7),
+            &|b: FastIcaParams<f64>, v| b.gfunc(match cnt(v, 1) {
+                0 => linfa_ica::fast_ica::GFunc::Logcosh(1.0),
+                1 => linfa_ica::fast_ica::GFunc::Exp,
+                2 => linfa_ica::fast_ica::GFunc::Cube,
+                _ => linfa_ica::fast_ica::GFunc::Logcosh(1.5),
+            }),
+        ]),
         read: Some(&|c| vec![c.tol()]),
         data: |cx: &Ctx| DatasetBase::from(data::blobs(cx.seed, 16, 2)),
         same: eqd);
@@ -988,7 +1102,7 @@ mod reduction {
         let x = data::blobs(cx.seed, 10, 2);
         let kernel = Kernel::params().method(KernelMethod::Gaussian(3.0)).transform(x.view());
         let base = |_: &[f64]| -> P { DiffusionMap::<f64>::params(2) };
-        let set = |b: P, v: &[f64]| b.steps(cnt(v, 0)).embedding_size(cnt(v, 1));
+        let set = |b: P, v: &[f64]| apply(b, v, &[&|b: P, v| b.steps(cnt(v, 0)), &|b: P, v| b.embedding_size(cnt(v, 1))]);
         let g = Glue {
             cx, stale: None, first_set: None,
             base: &base,
@@ -1021,8 +1135,12 @@ mod reduction {
                 let rp = Probe::new();
                 let ds = DatasetBase::from(data::blobs(cx.seed, 4, 80));
                 let probe_x = data::blobs(cx.seed + 1, 3, 80);
-                let base = |_: &[f64]| -> P { $ty::<f64>::params_with_rng(CountRng::new(cx.seed, &rp)) };
-                let set = |b: P, v: &[f64]| b.$set($conv(at(v, 0)));
+                // constructed with another generator; `with_rng` (builder-transforming, first in the canonical order)
+                // installs the real one and must carry the dimension / precision over
+                let base = |_: &[f64]| -> P { $ty::<f64>::params_with_rng(CountRng::new(cx.seed ^ 0x5eed, &rp)) };
+                let set = |b: P, v: &[f64]| {
+                    apply(b, v, &[&|b: P, _| b.with_rng(CountRng::new(cx.seed, &rp)), &|b: P, v| b.$set($conv(at(v, 0)))])
+                };
                 // no Clone on these builders: the "clone" variant degenerates to the same builder
                 let g = Glue {
                     cx, stale: None, first_set: None,
@@ -1103,17 +1221,23 @@ mod text {
     }
 
     fn set(b: CountVectorizerParams, v: &[f64]) -> CountVectorizerParams {
-        let b = b
-            .n_gram_range(cnt(v, 0), cnt(v, 1))
-            .document_frequency(at(v, 2) as f32, at(v, 3) as f32)
-            .convert_to_lowercase(cnt(v, 5) == 0)
-            .normalize(cnt(v, 6) == 0);
-        match cnt(v, 4) {
-            0 => b.tokenizer(Tokenizer::Regex(DEFAULT_REGEX.to_string())),
-            1 => b.tokenizer(Tokenizer::Regex(OTHER_REGEX.to_string())),
-            2 => b.tokenizer(Tokenizer::Regex(BAD_REGEX.to_string())),
-            _ => b.tokenizer(Tokenizer::Function(split_on_space)),
-        }
+        type P = CountVectorizerParams;
+        apply(
+            b,
+            v,
+            &[
+                &|b: P, v| b.n_gram_range(cnt(v, 0), cnt(v, 1)),
+                &|b: P, v| b.document_frequency(at(v, 2) as f32, at(v, 3) as f32),
+                &|b: P, v| match cnt(v, 4) {
+                    0 => b.tokenizer(Tokenizer::Regex(DEFAULT_REGEX.to_string())),
+                    1 => b.tokenizer(Tokenizer::Regex(OTHER_REGEX.to_string())),
+                    2 => b.tokenizer(Tokenizer::Regex(BAD_REGEX.to_string())),
+                    _ => b.tokenizer(Tokenizer::Function(split_on_space)),
+                },
+                &|b: P, v| b.convert_to_lowercase(cnt(v, 5) == 0),
+                &|b: P, v| b.normalize(cnt(v, 6) == 0),
+            ],
+        )
     }
 
     fn count_vectorizer(cx: &Ctx, obs: &mut Obs) {
